@@ -6,7 +6,7 @@ from props.common import load_impl, exc_name
 RULE = ("random small datasets (3-8 rows, 2 real features, 2-3 classes, 2-4 validation points) x methods (neighbor with the default distance, bruteforce, montecarlo "
         "with a fixed seed) rendered as: ndarray / DataFrame (default, string and shuffled-integer index) features; ndarray / Series labels; integer (contiguous, gapped-from-0, negative) / float / string "
         "labels (order-preserving renaming); dense features vs a FunctionTransformer->csr_matrix pipeline; a stateless feature-extraction pipeline (FunctionTransformer) "
-        "vs pre-transformed features. Every rendering a method accepts must give the same score vector (1e-9) as the plain ndarray/int rendering; a documented "
+        "vs pre-transformed features, and for the neighbor method a stateful one (StandardScaler) vs features transformed by an independently fitted copy. Every rendering a method accepts must give the same score vector (1e-9) as the plain ndarray/int rendering; a documented "
         "rejection (AssertionError/ValueError/TypeError raised before any score is produced) is recorded as 'not accepted', not a violation. Non-trivial = base score "
         "vector not constant; distinct = distinct (dataset, method, rendering).")
 
@@ -17,7 +17,7 @@ def run(ctx):
     from scipy.sparse import csr_matrix
     from sklearn.neighbors import KNeighborsClassifier
     from sklearn.pipeline import Pipeline
-    from sklearn.preprocessing import FunctionTransformer
+    from sklearn.preprocessing import FunctionTransformer, StandardScaler
     U = I["utility"]
     rng = ctx.rng
     q = ctx.tier == "quick"
@@ -66,11 +66,22 @@ def run(ctx):
             "float_labels": lambda: (X, np.array([flt_map[k] for k in y]), Xv, np.array([flt_map[k] for k in yv]), None),
             "string_labels": lambda: (X, np.array([str_map[k] for k in y]), Xv, np.array([str_map[k] for k in yv]), None),
             "sparse_pipeline": lambda: (X, y, Xv, yv, Pipeline([("sp", FunctionTransformer(csr_matrix))])),
+            "stateful_pipeline_vs_pretransformed": lambda: (X, y, Xv, yv, Pipeline([("sc", StandardScaler())])),
             "map_pipeline": lambda: (np.hstack([X, np.zeros((n, 1))]), y, np.hstack([Xv, np.zeros((m, 1))]), yv, Pipeline([("cut", FunctionTransformer(lambda A: np.asarray(A)[:, :2]))])),
         }
         for name, mk in renderings.items():
             Xa, ya, Xva, yva, pipe = mk()
             rcase = dict(case, rendering=name)
+            ref = base
+            if name == "stateful_pipeline_vs_pretransformed":
+                if method != "neighbor":
+                    continue              # bruteforce / montecarlo refit the pipeline per coalition: only the neighbor method extracts features once
+                sc = StandardScaler().fit(X)
+                try:
+                    ref = score(sc.transform(X), y, sc.transform(Xv), yv)      # features transformed by an independently fitted copy
+                except Exception as e:  # noqa
+                    ctx.mismatch("pre-transformed rendering raised", rcase, impl=exc_name(e) + repr(e))
+                    continue
             try:
                 got = score(Xa, ya, Xva, yva, pipeline=pipe)
             except (AssertionError, ValueError, TypeError, KeyError, AttributeError, IndexError) as e:
@@ -82,8 +93,8 @@ def run(ctx):
                 continue
             accepted[(method, name)] = "accepted"
             ctx.case((it, name), nontrivial=len(set(round(x, 9) for x in base)) > 1, sample=dict(rcase, scores=got), rendering=name, method=method, accepted=True)
-            if len(got) != len(base) or any(abs(a - b) > 1e-9 for a, b in zip(got, base)):
-                ctx.mismatch("scores depend on the representation (%s)" % name, rcase, impl=got, spec=base)
+            if len(got) != len(ref) or any(abs(a - b) > 1e-9 for a, b in zip(got, ref)):
+                ctx.mismatch("scores depend on the representation (%s)" % name, rcase, impl=got, spec=ref)
         if ctx.elapsed() > (400 if q else 1800):
             break
     ctx.extra["acceptance"] = {"%s/%s" % k: v for k, v in sorted(accepted.items())}
